@@ -32,6 +32,7 @@ type c18Case struct {
 }
 
 type c18Obs struct {
+	SrvOpen int `json:"srvOpen"` // server ends of accepted connections still open after Close and the release bound
 	Note          string         `json:"note,omitempty"`
 	ServeErr      string         `json:"serveErr"`
 	ServeReturned bool           `json:"serveReturned"`
@@ -355,6 +356,17 @@ func runC18(c *c18Case) *c18Obs {
 		_ = i
 	}
 	obs.Left, obs.LeftStack = serverGoroutines()
+	for _, fl := range fls {
+		if fl != nil {
+			fl.mu.Lock()
+			for _, cn := range fl.Conns {
+				if !cn.Server.Closed() {
+					obs.SrvOpen++
+				}
+			}
+			fl.mu.Unlock()
+		}
+	}
 	// the clients' own receivers are not the server's business: close them before counting? They are counted above only if they
 	// belong to the server side (receiveFromTransport is shared): close the clients first and count again.
 	for _, x := range clis {
@@ -500,6 +512,9 @@ func judgeC18(c *c18Case, obs *c18Obs, o *Outcome) {
 		if ph, ok := obs.FirstHandler[id]; ok && okF && pf < ph {
 			o.Fail("C18/handler-after-finished-callback", "session %s: a handler ran after the Finished callback", id)
 		}
+	}
+	if obs.SrvOpen > 0 {
+		o.Fail("C18/connection-left-open-after-close", "%d connection(s) the server's listeners had accepted are still open on the server side after Close and the release bound: their peers are left on a connection nobody serves", obs.SrvOpen)
 	}
 	if obs.Left > 0 {
 		o.Fail("C18/goroutine-left", "%d server goroutine(s) left after Close and the release bound:\n%s", obs.Left, obs.LeftStack)
